@@ -1134,7 +1134,7 @@ class FortranFile:
                     if tmp_ind is None:
                         curr_line = " " * 6 + curr_line[6:]
                     else:
-                        pre_lines[tmp_ind] = " " * 6 + tmp_line[6:]
+                        pre_lines[tmp_ind] = " " * 6 + pre_lines[tmp_ind][6:]
                     tmp_line = self.get_line(line_ind, pp_content)
                     # Comment and blank lines may stand between a line and its
                     # continuation: keep a placeholder and look further
